@@ -225,7 +225,7 @@ type c11 struct {
 
 func (c *c11) setDesc(d DescJ, optbm bool) {
 	normDesc(&d)
-	d = reachable(d)
+	d = stripDefaults(reachable(d))
 	key, _ := json.Marshal(d)
 	k := string(key) + fmt.Sprint(optbm)
 	if k == c.lastDesc {
